@@ -7,6 +7,7 @@ CONSTANTS
   TrigSets = {{},{1},{2},{3},{1,2},{1,3},{2,3},{1,2,3}}
   MaxNow = 3
   MaxStores = 3
+  Shared = FALSE
 CONSTRAINT Bounded
 INVARIANTS NeverStale LiveIsFound HeldNotDead NoLimitKeepsAll Bound OrderInv
 PROPERTIES EvictRule OnlyStoreEvicts
